@@ -1,1 +1,465 @@
-fn main() {}
+//! X02 driver: the REAL `libp2p_core::transport::MemoryTransport` (process-global port hub), several transport
+//! instances in one process, polled by hand.
+//!
+//!   drv-xmem exhaustive <len> <out> | random <seed> <runs> <out> | replay <file> <out>
+//!
+//! Ports are process-global: every run uses its own private block of ports BASE + run*64 + 1..8 (abstract 1..8);
+//! every other port (allocated by /memory/0, or an ephemeral dial port) is named 100, 101, .. in order of appearance.
+//!
+//! Schedule: {"ops": [op..]}; transports live in slots 0..2, a dropped transport is replaced by a fresh one (new id)
+//!   {"a":"listen","t":slot,"p":k}        k = 0: /memory/0, else the private port k
+//!   {"a":"listenl","t":slot,"l":i}       listen on the (known) port of listener i  (i mod #listeners)
+//!   {"a":"listend","t":slot,"d":i}       listen on the (known) ephemeral port of dial i
+//!   {"a":"remove","t":slot,"l":i}        remove_listener(id of listener i) on the transport in slot t
+//!   {"a":"dial","t":slot,"p":k} {"a":"diall","t":slot,"l":i} {"a":"diald","t":slot,"d":i}   Transport::dial
+//!   {"a":"dialpoll","d":i}               ONE poll of the DialFuture; on success the dialer writes its tag byte
+//!   {"a":"dropd","d":i}                  drop the unfinished DialFuture
+//!   {"a":"poll","t":slot}                ONE call of Transport::poll (an Incoming's upgrade is awaited and its tag read)
+//!   {"a":"dropt","t":slot}               drop the transport
+//!   {"a":"write","d":i,"side":"d"|"l","n":len} {"a":"read","d":i,"side","n":max} {"a":"close","d":i,"side"}
+use std::{collections::HashMap, future::Future, pin::Pin, task::Poll};
+
+use futures::io::{AsyncRead, AsyncWrite};
+use libp2p_core::{
+    multiaddr::Protocol,
+    transport::{DialOpts, ListenerId, MemoryTransport, PortUse, Transport, TransportEvent},
+    Endpoint, Multiaddr,
+};
+use rand::Rng;
+use vcommon::{exec::Det, guard, json, Args, Out, Value};
+
+const BASE: u64 = 0x5eed_0000_0000;
+const NPRIV: u64 = 8;
+
+type Chan = libp2p_core::transport::memory::Channel<Vec<u8>>;
+type DialFut = <MemoryTransport as Transport>::Dial;
+
+struct Dial {
+    fut: Option<Pin<Box<DialFut>>>,
+    dend: Option<Pin<Box<Chan>>>,
+    lend: Option<Pin<Box<Chan>>>,
+    dport: Option<i64>,
+}
+
+struct World {
+    base: u64,
+    names: HashMap<u64, i64>,
+    trans: Vec<(i64, Option<MemoryTransport>)>, // (transport id, instance)
+    next_tid: i64,
+    lids: Vec<(ListenerId, Option<i64>)>, // listener i: id, known abstract port
+    dials: Vec<Dial>,
+    det: Det,
+    wr: u8,
+}
+
+impl World {
+    fn new(run: u64) -> Self {
+        World {
+            base: BASE + run * 64,
+            names: HashMap::new(),
+            trans: (0..3).map(|i| (i as i64 + 1, Some(MemoryTransport::new()))).collect(),
+            next_tid: 4,
+            lids: vec![],
+            dials: vec![],
+            det: Det::new(),
+            wr: 0,
+        }
+    }
+    fn abs(&mut self, real: u64) -> i64 {
+        if real > self.base && real <= self.base + NPRIV {
+            return (real - self.base) as i64;
+        }
+        if real == 0 {
+            return 0;
+        }
+        let n = self.names.len() as i64;
+        *self.names.entry(real).or_insert(100 + n)
+    }
+    fn real(&self, abs: i64) -> Option<u64> {
+        if abs == 0 {
+            Some(0)
+        } else if abs < 100 {
+            Some(self.base + abs as u64)
+        } else {
+            self.names.iter().find(|(_, v)| **v == abs).map(|(k, _)| *k)
+        }
+    }
+    fn port_of(&mut self, a: &Multiaddr) -> i64 {
+        match a.iter().next() {
+            Some(Protocol::Memory(p)) => self.abs(p),
+            _ => -1,
+        }
+    }
+    fn lid_index(&self, id: ListenerId) -> i64 {
+        self.lids.iter().position(|(l, _)| *l == id).map(|i| i as i64 + 1).unwrap_or(-1)
+    }
+}
+
+fn addr(real: u64) -> Multiaddr {
+    Multiaddr::empty().with(Protocol::Memory(real))
+}
+
+fn step(w: &mut World, op: &Value) -> Value {
+    let a = op["a"].as_str().unwrap_or("");
+    let slot = op["t"].as_u64().unwrap_or(0) as usize % 3;
+    let det = w.det.clone();
+    match a {
+        "listen" | "listenl" | "listend" => {
+            let p: Option<i64> = match a {
+                "listen" => Some(op["p"].as_i64().unwrap_or(0).clamp(0, NPRIV as i64)),
+                "listenl" => {
+                    if w.lids.is_empty() {
+                        None
+                    } else {
+                        w.lids[op["l"].as_u64().unwrap_or(0) as usize % w.lids.len()].1
+                    }
+                }
+                _ => {
+                    if w.dials.is_empty() {
+                        None
+                    } else {
+                        w.dials[op["d"].as_u64().unwrap_or(0) as usize % w.dials.len()].dport
+                    }
+                }
+            };
+            let Some(p) = p else { return json!({"e": "skip"}) };
+            let Some(real) = w.real(p) else { return json!({"e": "skip"}) };
+            let id = ListenerId::next();
+            let tid = w.trans[slot].0;
+            let res = w.trans[slot].1.as_mut().unwrap().listen_on(id, addr(real));
+            match res {
+                Ok(()) => {
+                    w.lids.push((id, if p == 0 { None } else { Some(p) }));
+                    json!({"e": "listen", "t": tid, "p": p, "res": "ok", "lid": w.lids.len()})
+                }
+                Err(_) => json!({"e": "listen", "t": tid, "p": p, "res": "err", "lid": 0}),
+            }
+        }
+        "remove" => {
+            if w.lids.is_empty() {
+                return json!({"e": "skip"});
+            }
+            let i = op["l"].as_u64().unwrap_or(0) as usize % w.lids.len();
+            let tid = w.trans[slot].0;
+            let res = w.trans[slot].1.as_mut().unwrap().remove_listener(w.lids[i].0);
+            json!({"e": "remove", "t": tid, "lid": i + 1, "res": res})
+        }
+        "dial" | "diall" | "diald" => {
+            let p: Option<i64> = match a {
+                "dial" => Some(op["p"].as_i64().unwrap_or(0).clamp(0, NPRIV as i64)),
+                "diall" => {
+                    if w.lids.is_empty() {
+                        None
+                    } else {
+                        w.lids[op["l"].as_u64().unwrap_or(0) as usize % w.lids.len()].1
+                    }
+                }
+                _ => {
+                    if w.dials.is_empty() {
+                        None
+                    } else {
+                        w.dials[op["d"].as_u64().unwrap_or(0) as usize % w.dials.len()].dport
+                    }
+                }
+            };
+            let Some(p) = p else { return json!({"e": "skip"}) };
+            let Some(real) = w.real(p) else { return json!({"e": "skip"}) };
+            let tid = w.trans[slot].0;
+            let res = w.trans[slot].1.as_mut().unwrap().dial(addr(real), DialOpts { role: Endpoint::Dialer, port_use: PortUse::New });
+            match res {
+                Ok(f) => {
+                    w.dials.push(Dial { fut: Some(Box::pin(f)), dend: None, lend: None, dport: None });
+                    json!({"e": "dial", "t": tid, "p": p, "res": "ok", "d": w.dials.len()})
+                }
+                Err(_) => json!({"e": "dial", "t": tid, "p": p, "res": "err", "d": 0}),
+            }
+        }
+        "dialpoll" | "dropd" => {
+            let live: Vec<usize> = (0..w.dials.len()).filter(|i| w.dials[*i].fut.is_some()).collect();
+            if live.is_empty() {
+                return json!({"e": "skip"});
+            }
+            let i = live[op["d"].as_u64().unwrap_or(0) as usize % live.len()];
+            if a == "dropd" {
+                w.dials[i].fut = None;
+                return json!({"e": "dropd", "d": i + 1});
+            }
+            let mut f = w.dials[i].fut.take().unwrap();
+            match det.poll(f.as_mut()) {
+                Poll::Pending => {
+                    w.dials[i].fut = Some(f);
+                    json!({"e": "dialpoll", "d": i + 1, "res": "pending", "tag": ""})
+                }
+                Poll::Ready(Err(_)) => json!({"e": "dialpoll", "d": i + 1, "res": "err", "tag": ""}),
+                Poll::Ready(Ok(ch)) => {
+                    let mut ch = Box::pin(ch);
+                    let mut cx = det.cx();
+                    let tag = match ch.as_mut().poll_write(&mut cx, &[(i + 1) as u8]) {
+                        Poll::Ready(Ok(1)) => "ok",
+                        Poll::Ready(Ok(_)) => "short",
+                        Poll::Ready(Err(_)) => "err",
+                        Poll::Pending => "pending",
+                    };
+                    w.dials[i].dend = Some(ch);
+                    json!({"e": "dialpoll", "d": i + 1, "res": "ok", "tag": tag})
+                }
+            }
+        }
+        "poll" => {
+            let tid = w.trans[slot].0;
+            let mut cx = det.cx();
+            let r = Pin::new(w.trans[slot].1.as_mut().unwrap()).poll(&mut cx);
+            match r {
+                Poll::Pending => json!({"e": "poll", "t": tid, "res": "pending"}),
+                Poll::Ready(TransportEvent::NewAddress { listener_id, listen_addr }) => {
+                    let p = w.port_of(&listen_addr);
+                    let li = w.lid_index(listener_id);
+                    if li > 0 {
+                        w.lids[(li - 1) as usize].1 = Some(p);
+                    }
+                    json!({"e": "poll", "t": tid, "res": "newaddr", "lid": li, "p": p, "n": listen_addr.iter().count()})
+                }
+                Poll::Ready(TransportEvent::Incoming { listener_id, upgrade, local_addr, send_back_addr }) => {
+                    let li = w.lid_index(listener_id);
+                    let local = w.port_of(&local_addr);
+                    let from = w.port_of(&send_back_addr);
+                    let mut up = Box::pin(upgrade);
+                    let mut d = -1i64;
+                    let mut ups = "pending";
+                    if let Poll::Ready(x) = det.poll(up.as_mut()) {
+                        match x {
+                            Err(_) => ups = "err",
+                            Ok(ch) => {
+                                ups = "ok";
+                                let mut ch = Box::pin(ch);
+                                let mut b = [0u8; 1];
+                                let mut cx = det.cx();
+                                if let Poll::Ready(Ok(1)) = ch.as_mut().poll_read(&mut cx, &mut b) {
+                                    d = b[0] as i64;
+                                    if d >= 1 && (d as usize) <= w.dials.len() && w.dials[d as usize - 1].lend.is_none() {
+                                        w.dials[d as usize - 1].lend = Some(ch);
+                                        w.dials[d as usize - 1].dport = Some(from);
+                                    }
+                                }
+                            }
+                        }
+                    }
+                    json!({"e": "poll", "t": tid, "res": "incoming", "lid": li, "local": local, "from": from, "d": d, "up": ups})
+                }
+                Poll::Ready(TransportEvent::ListenerClosed { listener_id, reason }) => {
+                    json!({"e": "poll", "t": tid, "res": "closed", "lid": w.lid_index(listener_id), "ok": reason.is_ok()})
+                }
+                Poll::Ready(TransportEvent::AddressExpired { listener_id, listen_addr }) => {
+                    let p = w.port_of(&listen_addr);
+                    json!({"e": "poll", "t": tid, "res": "expired", "lid": w.lid_index(listener_id), "p": p})
+                }
+                Poll::Ready(TransportEvent::ListenerError { listener_id, .. }) => json!({"e": "poll", "t": tid, "res": "error", "lid": w.lid_index(listener_id)}),
+            }
+        }
+        "dropt" => {
+            let tid = w.trans[slot].0;
+            w.trans[slot].1 = None;
+            let nt = w.next_tid;
+            w.next_tid += 1;
+            w.trans[slot] = (nt, Some(MemoryTransport::new()));
+            json!({"e": "dropt", "t": tid, "nt": nt})
+        }
+        "write" | "read" | "close" => {
+            if w.dials.is_empty() {
+                return json!({"e": "skip"});
+            }
+            let i = op["d"].as_u64().unwrap_or(0) as usize % w.dials.len();
+            let side = if op["side"].as_str() == Some("l") { "l" } else { "d" };
+            let n = (op["n"].as_u64().unwrap_or(1) as usize).clamp(1, 6);
+            let end = if side == "l" { &mut w.dials[i].lend } else { &mut w.dials[i].dend };
+            let Some(ch) = end.as_mut() else { return json!({"e": "skip"}) };
+            let mut cx = det.cx();
+            match a {
+                "write" => {
+                    let bytes: Vec<u8> = (0..n).map(|k| w.wr.wrapping_add(k as u8) % 200 + 1).collect();
+                    w.wr = w.wr.wrapping_add(n as u8);
+                    match ch.as_mut().poll_write(&mut cx, &bytes) {
+                        Poll::Pending => json!({"e": "write", "d": i + 1, "side": side, "res": "pending", "bytes": bytes, "n": 0}),
+                        Poll::Ready(Err(_)) => json!({"e": "write", "d": i + 1, "side": side, "res": "err", "bytes": bytes, "n": 0}),
+                        Poll::Ready(Ok(k)) => json!({"e": "write", "d": i + 1, "side": side, "res": "ok", "bytes": bytes, "n": k}),
+                    }
+                }
+                "read" => {
+                    let mut buf = vec![0u8; n];
+                    match ch.as_mut().poll_read(&mut cx, &mut buf) {
+                        Poll::Pending => json!({"e": "read", "d": i + 1, "side": side, "max": n, "res": "pending", "bytes": []}),
+                        Poll::Ready(Err(_)) => json!({"e": "read", "d": i + 1, "side": side, "max": n, "res": "err", "bytes": []}),
+                        Poll::Ready(Ok(0)) => json!({"e": "read", "d": i + 1, "side": side, "max": n, "res": "eof", "bytes": []}),
+                        Poll::Ready(Ok(k)) => json!({"e": "read", "d": i + 1, "side": side, "max": n, "res": "ok", "bytes": (buf[..k.min(n)].to_vec())}),
+                    }
+                }
+                _ => {
+                    *end = None;
+                    json!({"e": "close", "d": i + 1, "side": side})
+                }
+            }
+        }
+        _ => json!({"e": "skip"}),
+    }
+}
+
+fn run(runno: u64, sched: &Value) -> Vec<Value> {
+    let mut w = World::new(runno);
+    let mut evs = vec![];
+    for op in sched["ops"].as_array().cloned().unwrap_or_default() {
+        match guard(|| step(&mut w, &op)) {
+            Ok(v) => evs.push(v),
+            Err(msg) => {
+                evs.push(json!({"e": "panic", "msg": msg}));
+                break;
+            }
+        }
+    }
+    // clean up (ports are process-global); a panic while dropping is data too
+    if let Err(msg) = guard(move || drop(w)) {
+        evs.push(json!({"e": "panic", "msg": msg}));
+    }
+    evs
+}
+
+fn emit(out: &mut Out, sched: &Value, evs: Vec<Value>) {
+    out.reset(sched);
+    for e in evs {
+        out.ev(e);
+    }
+}
+
+fn letters() -> Vec<Value> {
+    vec![
+        json!({"a": "listen", "t": 0, "p": 1}),
+        json!({"a": "listen", "t": 1, "p": 1}),
+        json!({"a": "listen", "t": 0, "p": 0}),
+        json!({"a": "remove", "t": 0, "l": 0}),
+        json!({"a": "remove", "t": 1, "l": 0}),
+        json!({"a": "dial", "t": 1, "p": 1}),
+        json!({"a": "diall", "t": 1, "l": 0}),
+        json!({"a": "dialpoll", "d": 0}),
+        json!({"a": "poll", "t": 0}),
+        json!({"a": "poll", "t": 1}),
+        json!({"a": "dropt", "t": 0}),
+        json!({"a": "close", "d": 0, "side": "d"}),
+        json!({"a": "listend", "t": 1, "d": 0}),
+    ]
+}
+
+/// drain: poll every transport until Pending (bounded), so that every due event is observed
+fn drain_ops() -> Vec<Value> {
+    let mut v = vec![];
+    for _ in 0..3 {
+        v.push(json!({"a": "poll", "t": 0}));
+        v.push(json!({"a": "poll", "t": 1}));
+    }
+    v
+}
+
+fn random_op(rng: &mut impl Rng) -> Value {
+    let t = rng.gen_range(0..3);
+    match rng.gen_range(0..100) {
+        0..=11 => json!({"a": "listen", "t": t, "p": rng.gen_range(0..4)}),
+        12..=14 => json!({"a": "listenl", "t": t, "l": rng.gen_range(0..6)}),
+        15..=17 => json!({"a": "listend", "t": t, "d": rng.gen_range(0..6)}),
+        18..=27 => json!({"a": "remove", "t": t, "l": rng.gen_range(0..6)}),
+        28..=35 => json!({"a": "dial", "t": t, "p": rng.gen_range(0..4)}),
+        36..=41 => json!({"a": "diall", "t": t, "l": rng.gen_range(0..6)}),
+        42..=43 => json!({"a": "diald", "t": t, "d": rng.gen_range(0..6)}),
+        44..=53 => json!({"a": "dialpoll", "d": rng.gen_range(0..4)}),
+        54..=55 => json!({"a": "dropd", "d": rng.gen_range(0..4)}),
+        56..=75 => json!({"a": "poll", "t": t}),
+        76..=79 => json!({"a": "dropt", "t": t}),
+        80..=86 => json!({"a": "write", "d": rng.gen_range(0..4), "side": (["d", "l"][rng.gen_range(0..2)]), "n": rng.gen_range(1..5)}),
+        87..=95 => json!({"a": "read", "d": rng.gen_range(0..4), "side": (["d", "l"][rng.gen_range(0..2)]), "n": rng.gen_range(1..6)}),
+        _ => json!({"a": "close", "d": rng.gen_range(0..4), "side": (["d", "l"][rng.gen_range(0..2)])}),
+    }
+}
+
+fn main() {
+    vcommon::quiet_panics();
+    let a = Args::parse();
+    // run numbers (= private port blocks) are unique within the process
+    let mut runno = 0u64;
+    match a.mode.as_str() {
+        "exhaustive" => {
+            let len = a.num(0) as usize;
+            let mut out = Out::create(a.get(1));
+            let abc = letters();
+            let mut n = 0u64;
+            for l in 1..=len {
+                let mut idx = vec![0usize; l];
+                'seqs: loop {
+                    let mut ops: Vec<Value> = idx.iter().map(|i| abc[*i].clone()).collect();
+                    ops.extend(drain_ops());
+                    ops.push(json!({"a": "listen", "t": 2, "p": 1}));
+                    let sched = json!({"ops": ops});
+                    runno += 1;
+                    let evs = run(runno, &sched);
+                    let nskip = evs.iter().take(l).filter(|e| e["e"] == "skip").count();
+                    if nskip == 0 {
+                        emit(&mut out, &sched, evs);
+                        n += 1;
+                    }
+                    let mut k = l;
+                    loop {
+                        if k == 0 {
+                            break 'seqs;
+                        }
+                        k -= 1;
+                        idx[k] += 1;
+                        if idx[k] < abc.len() {
+                            break;
+                        }
+                        idx[k] = 0;
+                    }
+                }
+            }
+            println!("runs={n} events={}", out.events);
+            out.finish();
+        }
+        "random" => {
+            let seed = a.num(0);
+            let runs = a.num(1);
+            let mut out = Out::create(a.get(2));
+            let mut rng = vcommon::rng(seed ^ 0x3e3042);
+            for _ in 0..runs {
+                let len = rng.gen_range(6..50);
+                let mut ops: Vec<Value> = (0..len).map(|_| random_op(&mut rng)).collect();
+                for _ in 0..4 {
+                    for t in 0..3 {
+                        ops.push(json!({"a": "poll", "t": t}));
+                    }
+                }
+                for p in 1..4 {
+                    ops.push(json!({"a": "listen", "t": 2, "p": p}));
+                }
+                let sched = json!({"ops": ops});
+                runno += 1;
+                let evs = run(runno, &sched);
+                emit(&mut out, &sched, evs);
+            }
+            println!("runs={runs} events={}", out.events);
+            out.finish();
+        }
+        "replay" => {
+            let scheds = vcommon::read_schedules(a.get(0));
+            let mut out = Out::create(a.get(1));
+            for s in &scheds {
+                runno += 1;
+                let evs = run(runno, s);
+                emit(&mut out, s, evs);
+            }
+            println!("runs={} events={}", scheds.len(), out.events);
+            out.finish();
+        }
+        m => {
+            eprintln!("unknown mode {m}");
+            std::process::exit(2)
+        }
+    }
+}
+
+#[allow(dead_code)]
+fn _assert_future<F: Future>(_: &F) {}
